@@ -415,8 +415,14 @@ Inductive prog :=
 | OAccessSlot (a : addr) (k : key)
 | OTouch (a : addr)                     (* GetBalance(a): caches the object; emits both balance views *)
 | OReadState (a : addr) (k : key)       (* GetState(a,k), GetCommittedState(a,k): caches object and committed slot; emits both values *)
+| OBankSend (f t : addr) (amt : Z)      (* bank SendCoins(unibi) on the cache ctx + Sync of both parties;
+                                           meaningful inside a precompile body *)
+| OIncState (a : addr) (k : key) (d : Z) (* SetState(a,k, GetState(a,k) + d): an ERC20 balance / supply update *)
 | PFrame (body : list prog) (reverted : bool)
-| PPrecompile (sends : list (addr * addr * Z)) (fails : bool).
+| PPrecompile (body : list prog) (fails : bool).
+(** [PPrecompile body fails]: a Nibiru precompile call.  After OnRunStart its body runs on the cache
+    context: bank sends, but also EVM writes and nested calls on the same StateDB (FunToken's
+    ERC20 mint / burn / transfer), nested frames and nested precompile calls. *)
 
 Definition sub_balance (s : sdb) (a : addr) (amt : Z) : sdb :=
   if bal (the_obj s a) <? amt then cached s a else add_balance s a (- amt).
@@ -449,7 +455,8 @@ Definition sub_refund (s : sdb) (g : Z) : sdb :=
 Definition run_sends (sends : list (addr * addr * Z)) (s : sdb) : sdb :=
   fold_left (fun s x => bank_send s (fst (fst x)) (snd (fst x)) (snd x)) sends s.
 
-Definition precompile_call (s : sdb) (sends : list (addr * addr * Z)) (fails : bool) : sdb :=
+(** a precompile call whose body is the state transformer [F] *)
+Definition pc_shell (s : sdb) (F : sdb -> sdb) (fails : bool) : sdb :=
   let n := length (journal s) in                      (* evm.Call: snapshot before the call *)
   let s1 := precompile_snapshot s in
   if maxc (cf s) <? calls s1 then unwind n s1          (* OnRunStart error: frame reverted *)
@@ -457,9 +464,14 @@ Definition precompile_call (s : sdb) (sends : list (addr * addr * Z)) (fails : b
     match flush_fail s1 with
     | Some af => unwind n (commit_cache_partial af s1) (* the pre-run flush failed: frame reverted *)
     | None =>
-        let s2 := run_sends sends (commit_cache s1) in
+        let s2 := F (commit_cache s1) in
         if fails then unwind n s2 else s2
     end.
+Definition precompile_call (s : sdb) (sends : list (addr * addr * Z)) (fails : bool) : sdb :=
+  pc_shell s (run_sends sends) fails.
+
+Definition inc_state (s : sdb) (a : addr) (k : key) (d : Z) : sdb :=
+  set_state s a k (st (txs s) a (the_obj s a) k + d).
 
 Fixpoint run (p : prog) (s : sdb) {struct p} : sdb :=
   match p with
@@ -477,16 +489,113 @@ Fixpoint run (p : prog) (s : sdb) {struct p} : sdb :=
   | OAccessSlot a k => access_slot s a k
   | OTouch a => touch s a
   | OReadState a k => read_obs s a k
+  | OBankSend f t amt => bank_send s f t amt
+  | OIncState a k d => inc_state s a k d
   | PFrame body rv =>
       let n := length (journal s) in
       let s' := (fix go (l : list prog) (s : sdb) : sdb :=
                    match l with [] => s | p :: t => go t (run p s) end) body s in
       if rv then unwind n s' else s'
-  | PPrecompile sends fails => precompile_call s sends fails
+  | PPrecompile body fails =>
+      pc_shell s ((fix go (l : list prog) (s : sdb) : sdb :=
+                     match l with [] => s | p :: t => go t (run p s) end) body) fails
   end.
 
 Definition run_body (body : list prog) (s : sdb) : sdb :=
   (fix go (l : list prog) (s : sdb) : sdb := match l with [] => s | p :: t => go t (run p s) end) body s.
+
+(** ======================================================================================
+    Variant [live := false]: WHICH MULTISTORE OBJECT a running precompile body writes to.
+
+    OnRunStart hands the body an sdk.Context VALUE.  Up to the repair "cacheStore cell" that value
+    held the cache multistore OBJECT that was current when the call started, while
+    [PrecompileCalled.Revert] made the StateDB point to ANOTHER object (the saved copy).  A body that
+    is still running when a nested precompile call is reverted (FunToken.sendToBank / sendToEvm call
+    an arbitrary ERC20, whose transfer() may call a precompile and swallow its failure) then keeps
+    reading and writing the detached object: its later bank writes are never committed, but the
+    balances it reads there are still mirrored into the StateDB by SyncStateDBWithAccount.
+
+    Objects are named by EPOCHS: the epoch advances whenever a revert replaces the current object;
+    [h_heap e] is the content of the object of a past epoch [e] (written from then on only by the
+    bodies that still hold it — they share it); the current object's content stays in [cache].
+    A body's handle is the epoch of its OnRunStart.  With [live := true] (the repaired code: the
+    context holds a cell that always resolves to the current object) handles are ignored and
+    [run_h] is [run] (lemma [run_h_live] in Proofs.v).  NO PROOFS here. *)
+Record hst := { h_db : sdb; h_ep : nat; h_heap : nat -> option store }.
+
+Definition h_lift (f : sdb -> sdb) (h : hst) : hst :=
+  {| h_db := f (h_db h); h_ep := h_ep h; h_heap := h_heap h |}.
+Definition updn {V} (m : nat -> V) (k : nat) (v : V) : nat -> V :=
+  fun k' => if Nat.eqb k' k then v else m k'.
+
+Definition is_pc_entry (e : entry) : bool := match e with EPrecompile _ _ _ => true | _ => false end.
+(** RevertToSnapshot to journal length [n] undoes at least one PrecompileCalled entry *)
+Definition reverts_pc (n : nat) (s : sdb) : bool :=
+  existsb is_pc_entry (firstn (length (journal s) - n) (journal s)).
+
+(** RevertToSnapshot: the first PrecompileCalled.Revert detaches the object that was current (the
+    entries undone before it do not touch the store), the StateDB goes on with copies *)
+Definition h_unwind (n : nat) (h : hst) : hst :=
+  let s := h_db h in
+  if reverts_pc n s
+  then {| h_db := unwind n s; h_ep := S (h_ep h); h_heap := updn (h_heap h) (h_ep h) (cache s) |}
+  else h_lift (unwind n) h.
+
+(** bank SendCoins on the body's context + SyncStateDBWithAccount(ctx, ·) for both parties; [hd] is
+    the handle of the enclosing body *)
+Definition h_bank_send (live : bool) (hd : option nat) (h : hst) (f t : addr) (amt : Z) : hst :=
+  match hd with
+  | None => h_lift (fun s => bank_send s f t amt) h
+  | Some e =>
+      if live || Nat.eqb e (h_ep h) then h_lift (fun s => bank_send s f t amt) h
+      else
+        match h_heap h e with
+        | None => h
+        | Some d =>
+            if (amt <=? 0) || (bank_bal d f <? amt) then h
+            else
+              let d1 := bank_move d f t amt in
+              {| h_db := set_balance (set_balance (h_db h) f (to_wei (bank_bal d1 f))) t (to_wei (bank_bal d1 t));
+                 h_ep := h_ep h; h_heap := updn (h_heap h) e (Some d1) |}
+        end
+  end.
+
+(** [pc_shell] with the body receiving the epoch of its OnRunStart as handle *)
+Definition h_pc_shell (h : hst) (F : nat -> hst -> hst) (fails : bool) : hst :=
+  let s := h_db h in
+  let n := length (journal s) in
+  let s1 := precompile_snapshot s in
+  if maxc (cf s) <? calls s1 then h_unwind n (h_lift (fun _ => s1) h)
+  else
+    match flush_fail s1 with
+    | Some af => h_unwind n (h_lift (fun _ => commit_cache_partial af s1) h)
+    | None =>
+        let h2 := F (h_ep h) (h_lift (fun _ => commit_cache s1) h) in
+        if fails then h_unwind n h2 else h2
+    end.
+
+Fixpoint run_h (live : bool) (hd : option nat) (p : prog) (h : hst) {struct p} : hst :=
+  match p with
+  | OBankSend f t amt => h_bank_send live hd h f t amt
+  | PFrame body rv =>
+      let n := length (journal (h_db h)) in
+      let h' := (fix go (l : list prog) (h : hst) : hst :=
+                   match l with [] => h | p :: t => go t (run_h live hd p h) end) body h in
+      if rv then h_unwind n h' else h'
+  | PPrecompile body fails =>
+      h_pc_shell h (fun e => (fix go (l : list prog) (h : hst) : hst :=
+                                match l with [] => h | p :: t => go t (run_h live (Some e) p h) end) body) fails
+  | _ => h_lift (run p) h
+  end.
+
+Definition run_h_body (live : bool) (hd : option nat) (body : list prog) (h : hst) : hst :=
+  (fix go (l : list prog) (h : hst) : hst :=
+     match l with [] => h | p :: t => go t (run_h live hd p h) end) body h.
+
+Definition h_init (s : sdb) : hst := {| h_db := s; h_ep := O; h_heap := fun _ => None |}.
+
+(** the StateDB at the end of the script under the semantics before the repair "cacheStore cell" *)
+Definition run_stale (p : prog) (s : sdb) : sdb := h_db (run_h false None p (h_init s)).
 
 Definition aux0 : aux_t := {| logs := 0; refund := 0; al := fun _ => false; als := fun _ _ => false |}.
 Definition init (c : cfg) (t : store) : sdb :=
@@ -504,8 +613,7 @@ Record rstate := {
   r_aux : aux_t;
   r_wr : addr -> bool;      (* ghost: storage of the address written in this tx (used by wf only) *)
   r_calls : Z;
-  r_base : addr -> Z;       (* unibi balance the bank held when the EVM state was last written to it
-                               (tx start / last successful precompile call); consulted for blocked accounts *)
+  r_base : addr -> Z;       (* the unibi balance the bank module holds (in the current store) *)
   r_bl : list addr          (* the blocked accounts (constant) *)
 }.
 
@@ -526,11 +634,18 @@ Definition rw_c (x : racct) c := {| rb := rb x; rn := rn x; rc := c; rs := rs x 
 
 Definition r_add (r : rstate) a amt : rstate := r_set r a (rw_b (r_get r a) (rb (r_get r a) + amt)).
 
+(** account [a] becomes [x] and the bank now holds [b] unibi for it *)
+Definition r_setb (r : rstate) a (x : racct) (b : Z) : rstate :=
+  {| r_accs := upd (r_accs r) a (Some x); r_stor := r_stor r; r_aux := r_aux r; r_wr := r_wr r; r_calls := r_calls r;
+     r_base := upd (r_base r) a b; r_bl := r_bl r |}.
+
+(** bank SendCoins + Sync: the bank moves ITS balances ([r_base]); both parties' EVM balances are then
+    set to what the bank holds *)
 Definition r_send (r : rstate) (f t : addr) (amt : Z) : rstate :=
-  if (amt <=? 0) || (to_native (rb (r_get r f)) <? amt) then r
+  if (amt <=? 0) || (r_base r f <? amt) then r
   else
-    let r1 := r_set r f (rw_b (r_get r f) (to_wei (to_native (rb (r_get r f)) - amt))) in
-    r_set r1 t (rw_b (r_get r1 t) (to_wei (to_native (rb (r_get r1 t)) + amt))).
+    let r1 := r_setb r f (rw_b (r_get r f) (to_wei (r_base r f - amt))) (r_base r f - amt) in
+    r_setb r1 t (rw_b (r_get r1 t) (to_wei (r_base r1 t + amt))) (r_base r1 t + amt).
 
 (** the pre-run flush of a precompile call would fail: some blocked account must be credited *)
 Definition r_pending (r : rstate) : bool :=
@@ -581,17 +696,27 @@ Fixpoint rrun (mx : Z) (p : prog) (r : rstate) {struct p} : rstate :=
       let r1 := r_access_addr r a in
       r_with_aux r1 (w_als (r_aux r1) (fun a' k' => if Z.eqb a' a && Z.eqb k' k then true else als (r_aux r1) a' k'))
   | OTouch _ | OReadState _ _ => r
+  | OBankSend f t amt => r_send r f t amt
+  | OIncState a k d =>
+      let r1 := r_set r a (r_get r a) in
+      {| r_accs := r_accs r1;
+         r_stor := fun a' k' => if Z.eqb a' a && Z.eqb k' k
+                                then r_stor r a k + d
+                                else r_stor r a' k';
+         r_aux := r_aux r; r_wr := upd (r_wr r) a true; r_calls := r_calls r;
+         r_base := r_base r; r_bl := r_bl r |}
   | PFrame body rv =>
       let r' := (fix go (l : list prog) (r : rstate) : rstate :=
                    match l with [] => r | p :: t => go t (rrun mx p r) end) body r in
       if rv then r_with_calls r (r_calls r') else r'
-  | PPrecompile sends fails =>
+  | PPrecompile body fails =>
       let r0 := r_with_calls r (r_calls r + 1) in
       if mx <? r_calls r0 then r0
       else if r_pending r0 then r0
       else
-        let r' := fold_left (fun r x => r_send r (fst (fst x)) (snd (fst x)) (snd x)) sends (r_flush r0) in
-        if fails then r0 else r'
+        let r' := (fix go (l : list prog) (r : rstate) : rstate :=
+                     match l with [] => r | p :: t => go t (rrun mx p r) end) body (r_flush r0) in
+        if fails then r_with_calls r0 (r_calls r') else r'
   end.
 
 Definition rrun_body mx (body : list prog) (r : rstate) : rstate :=
@@ -634,22 +759,24 @@ Definition wf_send (r : rstate) (x : addr * addr * Z) : bool :=
   negb (rs (r_get r (fst (fst x)))) && negb (rs (r_get r (snd (fst x)))) &&
   negb (is_bl r (fst (fst x))) && negb (is_bl r (snd (fst x))).
 
-Fixpoint wf (mx : Z) (p : prog) (r : rstate) {struct p} : bool :=
+(** [inb]: the op is a direct element of a precompile body (only there a bank send is undone by the
+    journal: it lives in the multistore snapshot of that call) *)
+Fixpoint wf (mx : Z) (inb : bool) (p : prog) (r : rstate) {struct p} : bool :=
   match p with
   | OCreate a => wf_create r a
   | OSetCode a _ => negb (is_bl r a)          (* module accounts carry no code hash *)
   | OSuicide a _ => negb (is_bl r a)          (* … and cannot be deleted by the EVM keeper *)
+  | OBankSend f t amt => inb && wf_send r (f, t, amt)
   | PFrame body _ =>
       (fix go (l : list prog) (r : rstate) : bool :=
-         match l with [] => true | p :: t => wf mx p r && go t (rrun mx p r) end) body r
-  | PPrecompile sends _ =>
+         match l with [] => true | p :: t => wf mx false p r && go t (rrun mx p r) end) body r
+  | PPrecompile body _ =>
       let r0 := r_with_calls r (r_calls r + 1) in
       if mx <? r_calls r0 then true
       else if r_pending r0 then true
-      else (fix go (l : list (addr * addr * Z)) (r : rstate) : bool :=
-              match l with [] => true
-              | x :: t => wf_send r x && go t (r_send r (fst (fst x)) (snd (fst x)) (snd x)) end) sends (r_flush r0)
+      else (fix go (l : list prog) (r : rstate) : bool :=
+              match l with [] => true | p :: t => wf mx true p r && go t (rrun mx p r) end) body (r_flush r0)
   | _ => true
   end.
 
-Definition wf_body mx (body : list prog) (r : rstate) : bool := wf mx (PFrame body false) r.
+Definition wf_body mx (body : list prog) (r : rstate) : bool := wf mx false (PFrame body false) r.
